@@ -958,6 +958,8 @@ class Patron(object):
         if self.redirects:
             redirect = self.redirects[-1]
             location = redirect['headers'].get('location')
+            if not location:
+                raise httping.InvalidURL("Redirect without Location header")
             path, sep, query = location.partition('?')
             path = unquote(path)
             if sep:
@@ -973,10 +975,14 @@ class Patron(object):
                                               host,
                                               self.requester.port,
                                               self.requester.path)
-            location = urljoin(base, location)
-            splits = urlsplit(location)
-            hostname = splits.hostname
-            port = splits.port
+            try:
+                location = urljoin(base, location)
+                splits = urlsplit(location)
+                hostname = splits.hostname
+                port = splits.port  # raises ValueError when not numeric
+            except ValueError as ex:
+                raise httping.InvalidURL("Invalid redirect Location '{0}': "
+                                         "{1}".format(location, ex))
             scheme = splits.scheme
             scheme = 'https' if scheme.lower() == 'https' else 'http'
             if scheme == 'https':
@@ -1112,7 +1118,19 @@ class Patron(object):
                                      ])
                     if self.respondent.redirectable and self.respondent.redirectant:
                         self.redirects.append(copy.copy(response))
-                        self.redirect()
+                        try:
+                            self.redirect()
+                        except httping.InvalidURL as ex:  # unusable Location
+                            # cannot follow so deliver redirect response with error
+                            self.redirects.pop()
+                            self.respondent.redirectant = False
+                            response['errored'] = True
+                            response['error'] = str(ex)
+                            if self.redirects:
+                                response['redirects'] = copy.copy(self.redirects)
+                            self.redirects = []
+                            self.responses.append(response)
+                            self.waited = False
                     else:
                         if self.redirects:
                             response['redirects'] = copy.copy(self.redirects)
